@@ -8,6 +8,9 @@
 static const uint8_t *mk_u8(KdCtx *k, int w, int h, int *stride, int post) {
     *stride    = kstride(k, w, 1);
     int      o = kr_range(k, 0, 3) ? kr_range(k, 0, 63) : 0; /* unaligned start */
+    /* blocks live inside padded pictures / 64-byte rows of larger buffers: a vector load that runs a
+     * few bytes past the block's last row stays inside the allocation (32 bytes before, 64 after) */
+    kpad(k, 32, 64);
     uint8_t *p = (uint8_t *)kb2(k, w, h, *stride, 1, 64, o, post);
     /* the `o` leading bytes are part of the allocation (picture data left of the block) */
     kfill2(k, p, w, h, *stride, 1, 0, 255);
@@ -16,6 +19,7 @@ static const uint8_t *mk_u8(KdCtx *k, int w, int h, int *stride, int post) {
 static uint16_t *mk_u16(KdCtx *k, int w, int h, int *stride, int maxv) {
     *stride     = kstride(k, w, 1);
     int       o = kr_range(k, 0, 3) ? kr_range(k, 0, 31) : 0;
+    kpad(k, 32, 64);
     uint16_t *p = (uint16_t *)kb2(k, w, h, *stride, 2, 64, o, 0);
     kfill2(k, p, w, h, *stride, 2, 0, maxv);
     return p;
@@ -49,17 +53,15 @@ KDH(sad4d) {
     KFN(k, sad4d)(s, ss, refs, rs, out);
 }
 
-/* svt_nxm_sad_kernel / _sub_sampled: sizes of test/SadTest.cc TEST_BLOCK_SIZES */
+/* svt_nxm_sad_kernel / _sub_sampled(src, stride, ref, stride, height, width): called with the
+ * dimensions of ME blocks (8..64 squares) and of AV1 blocks in MD, sub-sampled variant with
+ * height/2 and doubled strides.  (The AVX2 helpers still carry HEVC-era widths 24/40/48/56 that read
+ * 32/64-byte vectors; no caller produces them any more, so they are outside the domain.) */
 KDH(nxm_sad) {
-    static const int sz[][2] = {{16, 10}, {16, 5},  {32, 10}, {32, 20}, {64, 20}, {64, 64}, {64, 32}, {32, 64}, {32, 32}, {32, 16}, {16, 32},
-                                {16, 16}, {16, 8},  {8, 16},  {8, 8},   {8, 4},   {4, 4},   {4, 8},   {4, 16},  {16, 4},  {8, 32},  {32, 8},
-                                {16, 64}, {64, 16}, {24, 24}, {24, 16}, {16, 24}, {24, 8},  {8, 24},  {64, 24}, {48, 24}, {32, 24}, {24, 32},
-                                {48, 48}, {48, 16}, {48, 32}, {16, 48}, {32, 48}, {48, 64}, {64, 48}, {56, 32}, {40, 32}, {128, 128}, {128, 64},
-                                {64, 128}};
-    int              n    = (int)(sizeof(sz) / sizeof(sz[0]));
-    int              i    = k->icase < 9 ? kr_range(k, 0, n - 1) : (k->icase % n);
-    int              w = sz[i][0], h = sz[i][1], ss, rs;
-    const uint8_t   *s = mk_u8(k, w, h, &ss, 0), *r = mk_u8(k, w, h, &rs, 0);
+    int i = k->icase < 9 ? kr_range(k, 0, 21) : (k->icase % 22);
+    int w = kd_bsizes[i][0], h = kd_bsizes[i][1], ss, rs;
+    if (h >= 8 && kr_bool(k)) h >>= 1; /* sub-sampled rows */
+    const uint8_t *s = mk_u8(k, w, h, &ss, 0), *r = mk_u8(k, w, h, &rs, 0);
     ka(k, "w", w), ka(k, "h", h), ka(k, "src_stride", ss), ka(k, "ref_stride", rs);
     kcall(k);
     kret(k, KFN(k, nxm_sad)(s, (uint32_t)ss, r, (uint32_t)rs, (uint32_t)h, (uint32_t)w));
@@ -120,6 +122,7 @@ KDH(subpel_var) {
     /* bilinear: reads (w+1) x (h+1) source samples */
     ss            = kstride(k, w + 1, 1);
     int      o    = kr_range(k, 0, 63);
+    kpad(k, 32, 64);
     uint8_t *s    = (uint8_t *)kb2(k, w + 1, h + 1, ss, 1, 64, o, 0);
     kfill2(k, s, w + 1, h + 1, ss, 1, 0, 255);
     const uint8_t *r   = mk_u8(k, w, h, &rs, 0);
@@ -170,6 +173,7 @@ KDH(obmc_subpel_var) {
     int      w = P(0), h = P(1);
     int      ps  = kstride(k, w + 1, 1);
     int      o   = kr_range(k, 0, 63);
+    kpad(k, 32, 64);
     uint8_t *pre = (uint8_t *)kb2(k, w + 1, h + 1, ps, 1, 64, o, 0);
     kfill2(k, pre, w + 1, h + 1, ps, 1, 0, 255);
     int32_t *ws, *m;
